@@ -2480,4 +2480,165 @@ example (nn : List (V3 ℝ) → V3 ℝ → ℝ → List ℝ × ℝ) :
     norm_num
   simp only [h1, h2, Bool.false_eq_true, ↓reduceIte, h3]
 
+
+/-! ## 17. the existence decision of the in-balls does not depend on where the shape is
+
+The tolerance of `insphere` / `incircle` is `1e-8 · extent²`, `extent = max_i ‖v_i − v_0‖`: a quantity
+of the shape, not of its placement. (A tolerance relative to `‖b‖²`, `b_i = n_i · v_i` = distances of
+the face planes from the coordinate ORIGIN, would loosen with the distance from the origin: seeded
+change r2-C13-2.) The least-squares residual is translation invariant as well, hence so is the
+decision to raise `RuntimeError`. -/
+
+/-- translate a point list -/
+def shiftPts (t : V3 ℝ) (verts : List (V3 ℝ)) : List (V3 ℝ) := verts.map fun v => v + t
+
+/-- translate the faces `(unit normal, a vertex of the face)` -/
+def shiftFaces (t : V3 ℝ) (faces : List (V3 ℝ × V3 ℝ)) : List (V3 ℝ × V3 ℝ) :=
+  faces.map fun f => (f.1, f.2 + t)
+
+theorem add_sub_add_right' (a b t : V3 ℝ) : (a + t) - (b + t) = a - b := by ext <;> simp
+
+theorem extent_translate (t : V3 ℝ) (verts : List (V3 ℝ)) : extent (shiftPts t verts) = extent verts := by
+  cases verts with
+  | nil => rfl
+  | cons v0 rest =>
+    unfold extent shiftPts
+    simp only [firstVertex, List.map_cons, List.headD_cons, List.map_map]
+    congr 1
+    simp [Function.comp_def, add_sub_add_right']
+
+/-- **the tolerance is a quantity of the shape, not of its placement** -/
+theorem inAtol_translate (t : V3 ℝ) (verts : List (V3 ℝ)) : inAtol (shiftPts t verts) = inAtol verts := by
+  unfold inAtol; rw [extent_translate]
+
+/-- the model function commutes with translation (same guard, same tolerance; the centre moves along) -/
+theorem inBall_translate (k : Nat) (t : V3 ℝ) (verts : List (V3 ℝ)) (x : V3 ℝ) (r : ℝ) (resids : List ℝ) :
+    inBall k (shiftPts t verts) (x + t) r resids =
+      match inBall k verts x r resids with
+      | .ok B => .ok ⟨B.radius, B.center + t⟩
+      | .error e => .error e := by
+  unfold inBall
+  rw [extent_translate]
+  have hl : (shiftPts t verts).length = verts.length := by simp [shiftPts]
+  rw [hl]
+  simp only [bind, Except.bind]
+  generalize residGuard verts.length k resids (Scalar.q 1 100000000 * Scalar.sqr (extent verts)) = g
+  cases g with
+  | error e => rfl
+  | ok b =>
+    cases b with
+    | true => rfl
+    | false =>
+      simp only [Bool.false_eq_true, ↓reduceIte]
+      unfold mkBall
+      split <;> rfl
+
+/-- the in-system of the translated shape at the translated centre has the same residuals -/
+theorem inSystem_translate (t : V3 ℝ) (faces : List (V3 ℝ × V3 ℝ)) (x : V3 ℝ) (r : ℝ) :
+    sumSq (inSystemSphere (shiftFaces t faces)) (x + t) r = sumSq (inSystemSphere faces) x r := by
+  rw [sumSq_eq, sumSq_eq]
+  unfold inSystemSphere shiftFaces
+  rw [List.map_map, List.map_map, List.map_map]
+  congr 1
+  apply List.map_congr_left
+  intro f _
+  simp only [Function.comp_apply, Row.resid, V3.dot_eq, V3.add_x, V3.add_y, V3.add_z]
+  ring
+
+theorem sub_add_cancel_v (a t : V3 ℝ) : a - t + t = a := by ext <;> simp
+
+theorem isLstsqMin_translate (t : V3 ℝ) (faces : List (V3 ℝ × V3 ℝ)) (x : V3 ℝ) (r : ℝ)
+    (h : IsLstsqMin (inSystemSphere faces) x r) :
+    IsLstsqMin (inSystemSphere (shiftFaces t faces)) (x + t) r := by
+  intro x' r'
+  have e := inSystem_translate t faces (x' - t) r'
+  rw [sub_add_cancel_v] at e
+  rw [inSystem_translate, e]
+  exact h _ _
+
+/-- **C13 in-ball existence test, translation invariance.** The shape at two placements (vertices and
+face points translated by `t`, normals unchanged), ANY least-squares answers satisfying the lstsq
+contract at the two placements: `insphere` raises `RuntimeError` at one placement if and only if it
+does at the other. -/
+theorem insphere_decision_translation_invariant (t : V3 ℝ) (verts : List (V3 ℝ))
+    (faces : List (V3 ℝ × V3 ℝ)) (x x' : V3 ℝ) (r r' : ℝ) (resids resids' : List ℝ)
+    (hlen : 4 < verts.length)
+    (hc : LstsqContract (inSystemSphere faces) x r resids)
+    (hc' : LstsqContract (inSystemSphere (shiftFaces t faces)) x' r' resids') :
+    insphere (shiftPts t verts) x' r' resids' = .error "RuntimeError" ↔
+      insphere verts x r resids = .error "RuntimeError" := by
+  have hlen' : 4 < (shiftPts t verts).length := by simpa [shiftPts] using hlen
+  rw [insphere_raises_iff _ _ x' r' resids' hlen' hc', insphere_raises_iff _ _ x r resids hlen hc,
+    inAtol_translate]
+  have hmin := isLstsqMin_translate t faces x r hc.isMin
+  have e1 := (min_unique_resid hmin hc'.isMin).1
+  rw [inSystem_translate] at e1
+  rw [← e1]
+
+/-- the model's `incircle` has the same placement-independent tolerance (it is `inBall 3`) -/
+theorem incircle_tolerance_translation_invariant (t : V3 ℝ) (verts : List (V3 ℝ)) (x : V3 ℝ) (r : ℝ)
+    (resids : List ℝ) :
+    incircle (shiftPts t verts) (x + t) r resids = .error "RuntimeError" ↔
+      incircle verts x r resids = .error "RuntimeError" := by
+  unfold incircle
+  rw [inBall_translate]
+  cases inBall 3 verts x r resids with
+  | ok B => simp
+  | error e => simp
+
+
+/-! polygon: the edge normals are built from vertex differences, so they do not move either -/
+
+theorem rollL_map {β γ : Type} (f : β → γ) (l : List β) : rollL (l.map f) = (rollL l).map f := by
+  cases l with
+  | nil => rfl
+  | cons a l => simp [rollL]
+
+theorem outwardNormals_translate (t : V3 ℝ) (verts : List (V3 ℝ)) (normal : V3 ℝ) (sa : ℝ) :
+    outwardNormals (shiftPts t verts) normal sa = outwardNormals verts normal sa := by
+  unfold outwardNormals shiftPts
+  rw [rollL_map, List.zipWith_map]
+  simp only [add_sub_add_right']
+
+theorem edgeFaces_translate (t : V3 ℝ) (verts : List (V3 ℝ)) (normal : V3 ℝ) (sa : ℝ) :
+    edgeFaces (shiftPts t verts) normal sa = shiftFaces t (edgeFaces verts normal sa) := by
+  unfold edgeFaces shiftFaces
+  rw [outwardNormals_translate]
+  unfold shiftPts
+  rw [List.zip_map_right]
+  simp
+
+theorem inSystemCircle_translate (t : V3 ℝ) (verts : List (V3 ℝ)) (hne : verts ≠ []) (normal : V3 ℝ) (sa : ℝ)
+    (x : V3 ℝ) (r : ℝ) :
+    sumSq (inSystemCircle (shiftPts t verts) normal sa) (x + t) r =
+      sumSq (inSystemCircle verts normal sa) x r := by
+  rw [inSystemCircle_eq, inSystemCircle_eq, sumSq_append, sumSq_append, edgeFaces_translate, inSystem_translate]
+  congr 1
+  obtain ⟨v0, rest, rfl⟩ := List.exists_cons_of_ne_nil hne
+  rw [sumSq_eq, sumSq_eq]
+  simp only [shiftPts, firstVertex, List.map_cons, List.headD_cons, List.map_nil, List.sum_cons, List.sum_nil,
+    Row.resid, V3.dot_eq, V3.add_x, V3.add_y, V3.add_z]
+  ring
+
+/-- **C13 incircle existence test, translation invariance** (same statement as for `insphere`). -/
+theorem incircle_decision_translation_invariant (t : V3 ℝ) (verts : List (V3 ℝ)) (normal : V3 ℝ) (sa : ℝ)
+    (x x' : V3 ℝ) (r r' : ℝ) (resids resids' : List ℝ) (hlen : 3 < verts.length)
+    (hc : LstsqContract (inSystemCircle verts normal sa) x r resids)
+    (hc' : LstsqContract (inSystemCircle (shiftPts t verts) normal sa) x' r' resids') :
+    incircle (shiftPts t verts) x' r' resids' = .error "RuntimeError" ↔
+      incircle verts x r resids = .error "RuntimeError" := by
+  have hne : verts ≠ [] := by intro h; rw [h] at hlen; simp at hlen
+  have hlen' : 3 < (shiftPts t verts).length := by simpa [shiftPts] using hlen
+  unfold incircle
+  rw [hc.resid, hc'.resid, inBall_raises_iff hlen, inBall_raises_iff hlen', abs_sumSq, abs_sumSq, inAtol_translate]
+  have hmin : IsLstsqMin (inSystemCircle (shiftPts t verts) normal sa) (x + t) r := by
+    intro y s
+    have e := inSystemCircle_translate t verts hne normal sa (y - t) s
+    rw [sub_add_cancel_v] at e
+    rw [inSystemCircle_translate t verts hne, e]
+    exact hc.isMin _ _
+  have e1 := (min_unique_resid hmin hc'.isMin).1
+  rw [inSystemCircle_translate t verts hne] at e1
+  rw [← e1]
+
 end
